@@ -17,12 +17,13 @@ class K0 { pass "0" }
 class K1 { a: "1" }
 class K2 { a: "2"; b: "3" }
 class M2 { b: "3"; a: "2" }
+class L2 { a: "2"; b: "3" }
 start = K2
 '''
 
 LEAVES = [('none',), ('int', 1), ('str', 'x'), ('dstr', 'xy')]
-ARITY = {'K0': 0, 'K1': 1, 'K2': 2, 'M2': 2, 'Infix': 3, 'Prefix': 2, 'Postfix': 2}
-FIELDS = {'K0': (), 'K1': ('a',), 'K2': ('a', 'b'), 'M2': ('b', 'a'), 'Infix': ('left', 'operator', 'right'),
+ARITY = {'K0': 0, 'K1': 1, 'K2': 2, 'M2': 2, 'L2': 2, 'Infix': 3, 'Prefix': 2, 'Postfix': 2}
+FIELDS = {'K0': (), 'K1': ('a',), 'K2': ('a', 'b'), 'M2': ('b', 'a'), 'L2': ('a', 'b'), 'Infix': ('left', 'operator', 'right'),
           'Prefix': ('operator', 'right'), 'Postfix': ('left', 'operator')}
 
 
